@@ -1486,7 +1486,13 @@ impl DriverListener for ClientConductor {
         let mut log_buffers: Option<Arc<LogBuffers>> = None;
         let mut maybe_channel: Option<CString> = None;
 
-        if let Some(state) = self.publication_by_registration_id.get(&registration_id) {
+        // Only the first answer to a pending registration is taken (as on_available_counter does): a duplicated or late
+        // ready event must not overwrite a registered or errored publication.
+        if let Some(state) = self
+            .publication_by_registration_id
+            .get(&registration_id)
+            .filter(|state| state.status == RegistrationStatus::Awaiting)
+        {
             log!(trace, "on_new_publication: registration_id {}, original_registration_id {}, stream_id {}, session_id {}, publication_limit_counter_id {}, channel_status_indicator_id {}, log_file_name \"{}\"",
                 registration_id,
                 original_registration_id,
@@ -1513,7 +1519,11 @@ impl DriverListener for ClientConductor {
             );
         }
 
-        if let Some(state) = self.publication_by_registration_id.get_mut(&registration_id) {
+        if let Some(state) = self
+            .publication_by_registration_id
+            .get_mut(&registration_id)
+            .filter(|state| state.status == RegistrationStatus::Awaiting)
+        {
             state.status = RegistrationStatus::Registered;
             state.session_id = session_id;
             state.publication_limit_counter_id = publication_limit_counter_id;
@@ -1542,7 +1552,11 @@ impl DriverListener for ClientConductor {
         let mut log_buffers: Option<Arc<LogBuffers>> = None;
         let mut maybe_channel: Option<CString> = None;
 
-        if let Some(state) = self.exclusive_publication_by_registration_id.get(&registration_id) {
+        if let Some(state) = self
+            .exclusive_publication_by_registration_id
+            .get(&registration_id)
+            .filter(|state| state.status == RegistrationStatus::Awaiting)
+        {
             log!(trace, "on_new_exclusive_publication: registration_id {}, original_registration_id {}, stream_id {}, session_id {}, publication_limit_counter_id {}, channel_status_indicator_id {}, log_file_name \"{}\"",
                 registration_id,
                 original_registration_id,
@@ -1569,7 +1583,11 @@ impl DriverListener for ClientConductor {
             );
         }
 
-        if let Some(state) = self.exclusive_publication_by_registration_id.get_mut(&registration_id) {
+        if let Some(state) = self
+            .exclusive_publication_by_registration_id
+            .get_mut(&registration_id)
+            .filter(|state| state.status == RegistrationStatus::Awaiting)
+        {
             state.status = RegistrationStatus::Registered;
             state.session_id = session_id;
             state.publication_limit_counter_id = publication_limit_counter_id;
@@ -1583,7 +1601,13 @@ impl DriverListener for ClientConductor {
     }
 
     fn on_subscription_ready(&mut self, registration_id: i64, channel_status_id: i32) {
-        if let Some(state) = self.subscription_by_registration_id.get_mut(&registration_id) {
+        // Only the first answer to a pending registration is taken: a duplicated ready event must not replace the
+        // subscription object already handed out (or still cached) for this registration.
+        if let Some(state) = self
+            .subscription_by_registration_id
+            .get_mut(&registration_id)
+            .filter(|state| state.status == RegistrationStatus::Awaiting)
+        {
             log!(
                 trace,
                 "on_subscription_ready: registration_id {}, channel_status_id {}",
